@@ -952,6 +952,8 @@ def _decide_hist(item, label, fn_sym, call_real, conc_inputs, post, maxpaths):
                 c2 = z3.is_true(ev_term(model, c2))
             out = dict(conc)
             out["earlier_call"] = conc0
+            if os.environ.get("SYMX_DEBUG"):
+                print("DEBUG hist", _p.kind, repr(_p.value)[:600], "m1", m1, "m0", m0, "pc", [str(x)[:120] for x in _p.pc][:12], file=sys.stderr)
             return (not c2), out, "after the same call on %r (-> %r) the real outcome %r violates the property" % (
                 jsonable(conc0), jsonable(first[:2]), jsonable(real[:2])), real
         item.prove(label + " (after an earlier call)", p.pc, claim, replay, path=p)
